@@ -62,7 +62,7 @@ Record chanspec := {
   cs_cpudef : value        (* default of the CPU mux (idle = Resting) *)
 }.
 
-Record thread_info := { ti_tid : Z; ti_pid : Z; ti_loom : nat }.
+Record thread_info := { ti_tid : Z; ti_pid : Z; ti_loom : nat; ti_appid : Z; ti_rank : Z (* -1: the process has no rank *) }.
 Record cpu_info := { ci_virtual : bool; ci_loom : nat; ci_index : Z (* index inside the loom, -1 for the vCPU *) }.
 
 Record static := {
@@ -83,13 +83,26 @@ Record thread := {
   t_state : tst;
   t_cpu : option nat;
   t_ooc : bool;                         (* is_out_of_cpu *)
-  t_raw : list raw                      (* one per s_chans entry *)
+  t_raw : list raw;                     (* one per s_chans entry *)
+  t_bstack : list (Z * Z * Z)           (* task bodies on this thread: (model, task id, body id), top first *)
 }.
+
+(* tasks and bodies (src/emu/task.c, body.c) *)
+Inductive bstate := BCreated | BRunning | BPaused | BDead.
+Record body := { b_id : Z; b_state : bstate; b_on : option nat (* thread whose stack holds it *) }.
+Record task := {
+  tk_loom : nat; tk_pid : Z; tk_model : Z; tk_id : Z; tk_gid : Z;
+  tk_par : bool; tk_res : bool; tk_pause : bool; tk_relax : bool;
+  tk_bodies : list body
+}.
+Record ttype := { ty_loom : nat; ty_pid : Z; ty_model : Z; ty_id : Z; ty_gid : Z }.
 
 Record state := {
   threads : list thread;
   cpu_threads : list (list nat);        (* per CPU: threads bound to it, in DL_APPEND order *)
   cpu_touched : list bool;              (* per CPU: cpu_update() has run at least once (its channels hold values, not null) *)
+  tasks : list task;
+  types : list ttype;
   prv_last : list ((bool * nat * Z) * value)   (* (is cpu file, row, type) -> last emitted value (when duplicates matter) *)
 }.
 
@@ -136,7 +149,7 @@ Definition mem_nat (x : nat) (l : list nat) : bool := existsb (Nat.eqb x) l.
 (* ------------------------------------------------------------------ *)
 (* CPU view: cpu_update()                                              *)
 
-Definition dummy_thread : thread := {| t_state := Unknown; t_cpu := None; t_ooc := false; t_raw := [] |}.
+Definition dummy_thread : thread := {| t_state := Unknown; t_cpu := None; t_ooc := false; t_raw := []; t_bstack := [] |}.
 Definition thread_state_of (st : state) (t : nat) : tst := t_state (nth t (threads st) dummy_thread).
 
 Definition running_on (st : state) (c : nat) : list nat :=
@@ -196,25 +209,37 @@ Inductive ohev :=
 
 Definition set_thread (st : state) (t : nat) (th : thread) : state :=
   {| threads := update (threads st) t th; cpu_threads := cpu_threads st; cpu_touched := cpu_touched st;
-     prv_last := prv_last st |}.
+     tasks := tasks st; types := types st; prv_last := prv_last st |}.
 
 Definition set_cpu_threads (st : state) (c : nat) (l : list nat) : state :=
   {| threads := threads st; cpu_threads := update (cpu_threads st) c l; cpu_touched := cpu_touched st;
-     prv_last := prv_last st |}.
+     tasks := tasks st; types := types st; prv_last := prv_last st |}.
 
 (* cpu_update(c) ran *)
 Definition touch (st : state) (c : nat) : state :=
   {| threads := threads st; cpu_threads := cpu_threads st; cpu_touched := update (cpu_touched st) c true;
-     prv_last := prv_last st |}.
+     tasks := tasks st; types := types st; prv_last := prv_last st |}.
+
+Definition set_tasks (st : state) (tk : list task) : state :=
+  {| threads := threads st; cpu_threads := cpu_threads st; cpu_touched := cpu_touched st;
+     tasks := tk; types := types st; prv_last := prv_last st |}.
+Definition set_types (st : state) (ty : list ttype) : state :=
+  {| threads := threads st; cpu_threads := cpu_threads st; cpu_touched := cpu_touched st;
+     tasks := tasks st; types := ty; prv_last := prv_last st |}.
+Definition set_last (st : state) (l : list ((bool * nat * Z) * value)) : state :=
+  {| threads := threads st; cpu_threads := cpu_threads st; cpu_touched := cpu_touched st;
+     tasks := tasks st; types := types st; prv_last := l |}.
 
 Definition with_state (th : thread) (s : tst) : thread :=
-  {| t_state := s; t_cpu := t_cpu th; t_ooc := t_ooc th; t_raw := t_raw th |}.
+  {| t_state := s; t_cpu := t_cpu th; t_ooc := t_ooc th; t_raw := t_raw th; t_bstack := t_bstack th |}.
 Definition with_cpu (th : thread) (c : option nat) : thread :=
-  {| t_state := t_state th; t_cpu := c; t_ooc := t_ooc th; t_raw := t_raw th |}.
+  {| t_state := t_state th; t_cpu := c; t_ooc := t_ooc th; t_raw := t_raw th; t_bstack := t_bstack th |}.
 Definition with_ooc (th : thread) (b : bool) : thread :=
-  {| t_state := t_state th; t_cpu := t_cpu th; t_ooc := b; t_raw := t_raw th |}.
+  {| t_state := t_state th; t_cpu := t_cpu th; t_ooc := b; t_raw := t_raw th; t_bstack := t_bstack th |}.
 Definition with_raw (th : thread) (r : list raw) : thread :=
-  {| t_state := t_state th; t_cpu := t_cpu th; t_ooc := t_ooc th; t_raw := r |}.
+  {| t_state := t_state th; t_cpu := t_cpu th; t_ooc := t_ooc th; t_raw := r; t_bstack := t_bstack th |}.
+Definition with_bstack (th : thread) (b : list (Z * Z * Z)) : thread :=
+  {| t_state := t_state th; t_cpu := t_cpu th; t_ooc := t_ooc th; t_raw := t_raw th; t_bstack := b |}.
 
 (* a plain state change of a thread that keeps its CPU: guard, thread_set_state, cpu_update *)
 Definition change_state (sx : static) (st : state) (who : nat) (th : thread) (ok : bool) (new : tst)
@@ -426,7 +451,7 @@ Definition empty_raw : raw := {| r_stk := []; r_val := None |}.
 Definition raw_of (st : state) (t : nat) (k : nat) : raw :=
   nth k (t_raw (nth t (threads st) dummy_thread)) empty_raw.
 
-Definition dummy_info : thread_info := {| ti_tid := 0; ti_pid := 0; ti_loom := 0 |}.
+Definition dummy_info : thread_info := {| ti_tid := 0; ti_pid := 0; ti_loom := 0; ti_appid := 0; ti_rank := -1 |}.
 
 (* what each slot displays: the value of the channel behind it *)
 Definition view (sx : static) (st : state) (s : slot) : value :=
@@ -452,8 +477,8 @@ Definition changed (a b : value) : bool := negb (value_eqb a b).
 Definition opt_nat_eqb (a b : option nat) : bool :=
   match a, b with Some x, Some y => Nat.eqb x y | None, None => true | _, _ => false end.
 
-Definition is_dirty (dirty : option (nat * nat)) (t k : nat) : bool :=
-  match dirty with Some (t', k') => Nat.eqb t t' && Nat.eqb k k' | None => false end.
+Definition is_dirty (dirty : list (nat * nat)) (t k : nat) : bool :=
+  existsb (fun '(t', k') => Nat.eqb t t' && Nat.eqb k k') dirty.
 
 (* The emission rule: is the channel behind the slot written (hence offered to the PRV) in the
    event that takes old to new and writes the raw channel `dirty`?
@@ -463,7 +488,7 @@ Definition is_dirty (dirty : option (nat * nat)) (t k : nat) : bool :=
      mode ANY has no mux: the raw channel itself is registered;
    - a CPU tracking mux writes when its select (the unique running thread) changes or when the raw
      channel of that thread is written. *)
-Definition requested (sx : static) (old new : state) (dirty : option (nat * nat)) (s : slot) : bool :=
+Definition requested (sx : static) (old new : state) (dirty : list (nat * nat)) (s : slot) : bool :=
   match s with
   | STh _ _ | SCpu _ _ => changed (view sx old s) (view sx new s)
   | STr t k =>
@@ -483,7 +508,7 @@ Definition slots (sx : static) : list slot :=
 (* a request to emit: (key, flags, value) *)
 Definition req := (key * Z * value)%type.
 
-Definition all_reqs (sx : static) (old new : state) (dirty : option (nat * nat)) : list req :=
+Definition all_reqs (sx : static) (old new : state) (dirty : list (nat * nat)) : list req :=
   flat_map (fun s => if requested sx old new dirty s then [(key_of sx s, flags_of sx s, view sx new s)] else []) (slots sx).
 
 Fixpoint emit_all (last : list (key * value)) (rs : list req) : result (list (key * value) * list line) :=
@@ -503,35 +528,308 @@ Fixpoint emit_all (last : list (key * value)) (rs : list req) : result (list (ke
 (* ------------------------------------------------------------------ *)
 (* events                                                              *)
 
-Inductive event :=
-| EvOvni (e : ohev)
-| EvChan (k : nat) (a : action) (v : value) (need : Z)   (* table-driven model event on channel k; need: 0 none, 1 running, 2 active; *)
-| EvOoc (k : nat) (out : bool) (v : Z)               (* kernel context switch: KCO / KCI on channel k *)
-| EvNop                                              (* accepted and ignored (OU[, OU], OB., OCn) *)
-| EvBad (why : nat).                                 (* decoder could not place it: rejected *)
-
 Definition chan_step (sx : static) (st : state) (who : nat) (k : nat) (a : action) (v : value)
-  : result (state * option (nat * nat)) :=
+  : result (state * list (nat * nat)) :=
   match nth_opt (threads st) who, nth_opt (s_chans sx) k with
   | Some th, Some sp =>
     match raw_apply sp (nth k (t_raw th) empty_raw) a v with
     | Err e => Err e
     | Ok (r', dirty) =>
-      Ok (set_thread st who (with_raw th (update (t_raw th) k r')), if dirty then Some (who, k) else None)
+      Ok (set_thread st who (with_raw th (update (t_raw th) k r')), if dirty then [(who, k)] else [])
     end
   | _, _ => Err E_UNKNOWN
   end.
 
+(* ------------------------------------------------------------------ *)
+(* tasks and bodies: src/emu/task.c, body.c and the update_task() of nosv/event.c, nanos6/event.c *)
+
+Definition E_TASK := 12%nat.
+
+Definition bstate_eqb (a b : bstate) : bool :=
+  match a, b with BCreated, BCreated | BRunning, BRunning | BPaused, BPaused | BDead, BDead => true | _, _ => false end.
+
+Fixpoint find_task_from (l : list task) (loom : nat) (pid mdl id : Z) (i : nat) : option (nat * task) :=
+  match l with
+  | [] => None
+  | tk :: r => if Nat.eqb (tk_loom tk) loom && (tk_pid tk =? pid) && (tk_model tk =? mdl) && (tk_id tk =? id)
+               then Some (i, tk) else find_task_from r loom pid mdl id (S i)
+  end.
+Definition find_task (st : state) (loom : nat) (pid mdl id : Z) := find_task_from (tasks st) loom pid mdl id 0.
+
+Fixpoint find_body_from (l : list body) (id : Z) (i : nat) : option (nat * body) :=
+  match l with
+  | [] => None
+  | b :: r => if b_id b =? id then Some (i, b) else find_body_from r id (S i)
+  end.
+Definition find_body (tk : task) (id : Z) := find_body_from (tk_bodies tk) id 0.
+
+Fixpoint find_type (l : list ttype) (loom : nat) (pid mdl id : Z) : option ttype :=
+  match l with
+  | [] => None
+  | ty :: r => if Nat.eqb (ty_loom ty) loom && (ty_pid ty =? pid) && (ty_model ty =? mdl) && (ty_id ty =? id)
+               then Some ty else find_type r loom pid mdl id
+  end.
+
+Definition set_bodies (tk : task) (bs : list body) : task :=
+  {| tk_loom := tk_loom tk; tk_pid := tk_pid tk; tk_model := tk_model tk; tk_id := tk_id tk; tk_gid := tk_gid tk;
+     tk_par := tk_par tk; tk_res := tk_res tk; tk_pause := tk_pause tk; tk_relax := tk_relax tk; tk_bodies := bs |}.
+
+(* state of a body given (model, task id, body id) as stored in a thread's stack; the task is looked up in the
+   process of that thread *)
+Definition body_state_of (st : state) (loom : nat) (pid : Z) (e : Z * Z * Z) : option (task * body) :=
+  let '(mdl, tid, bid) := e in
+  match find_task st loom pid mdl tid with
+  | Some (_, tk) => match find_body tk bid with Some (_, b) => Some (tk, b) | None => None end
+  | None => None
+  end.
+
+(* the stack of one model on a thread *)
+Definition model_stack (th : thread) (mdl : Z) : list (Z * Z * Z) :=
+  filter (fun '(m, _, _) => m =? mdl) (t_bstack th).
+
+(* body_get_running: the top of the stack if it is running *)
+Definition running_top (st : state) (loom : nat) (pid : Z) (th : thread) (mdl : Z) : option (task * body) :=
+  match model_stack th mdl with
+  | e :: _ => match body_state_of st loom pid e with
+              | Some (tk, b) => if bstate_eqb (b_state b) BRunning then Some (tk, b) else None
+              | None => None
+              end
+  | [] => None
+  end.
+
+Definition is_top (th : thread) (mdl tid bid : Z) : bool :=
+  match model_stack th mdl with
+  | (_, t, b) :: _ => (t =? tid) && (b =? bid)
+  | [] => false
+  end.
+
+Fixpoint remove_entry (l : list (Z * Z * Z)) (mdl tid bid : Z) : list (Z * Z * Z) :=
+  match l with
+  | [] => []
+  | (m, t, b) :: r => if (m =? mdl) && (t =? tid) && (b =? bid) then r else (m, t, b) :: remove_entry r mdl tid bid
+  end.
+
+(* task_execute/pause/resume/end on body `bid` of task index ti; returns new state *)
+Definition store_body (st : state) (ti : nat) (tk : task) (bi : option nat) (b : body) : state :=
+  let bs := match bi with Some i => update (tk_bodies tk) i b | None => tk_bodies tk ++ [b] end in
+  set_tasks st (update (tasks st) ti (set_bodies tk bs)).
+
+Definition task_op (st : state) (who : nat) (th : thread) (loom : nat) (pid : Z) (mdl : Z) (kind : Z) (tid bid : Z)
+  : result state :=
+  match find_task st loom pid mdl tid with
+  | None => Err E_TASK
+  | Some (ti, tk) =>
+    let fb := find_body tk bid in
+    if kind =? 120 then (* x : task_execute *)
+      (* create the body if needed: one body only for non-parallel tasks *)
+      match (match fb with
+             | Some (i, b) => Some (Some i, b)
+             | None => if negb (tk_par tk) && negb (Nat.eqb (length (tk_bodies tk)) 0) then None
+                       else Some (None, {| b_id := bid; b_state := BCreated; b_on := None |})
+             end) with
+      | None => Err E_TASK
+      | Some (bi, b) =>
+        (* body_execute *)
+        let st0 := match b_state b with BDead => if tk_res tk then Some BCreated else None | s => Some s end in
+        match st0 with
+        | None => Err E_TASK
+        | Some BCreated =>
+          match b_on b with
+          | Some _ => Err E_TASK
+          | None =>
+            match running_top st loom pid th mdl with
+            | Some (tk', _) => if tk_relax tk' then
+                                 Ok (set_thread (store_body st ti tk bi {| b_id := bid; b_state := BRunning; b_on := Some who |})
+                                                who (with_bstack th ((mdl, tid, bid) :: t_bstack th)))
+                               else Err E_TASK
+            | None => Ok (set_thread (store_body st ti tk bi {| b_id := bid; b_state := BRunning; b_on := Some who |})
+                                     who (with_bstack th ((mdl, tid, bid) :: t_bstack th)))
+            end
+          end
+        | Some _ => Err E_TASK
+        end
+      end
+    else
+      match fb with
+      | None => Err E_TASK
+      | Some (bi, b) =>
+        let on_me := match b_on b with Some w => Nat.eqb w who | None => false end in
+        if kind =? 112 then (* p *)
+          if negb (tk_pause tk) then Err E_TASK else
+          if negb (bstate_eqb (b_state b) BRunning) then Err E_TASK else
+          if negb on_me then Err E_TASK else
+          if negb (is_top th mdl tid bid) then Err E_TASK else
+          Ok (store_body st ti tk (Some bi) {| b_id := bid; b_state := BPaused; b_on := b_on b |})
+        else if kind =? 114 then (* r *)
+          if negb (bstate_eqb (b_state b) BPaused) then Err E_TASK else
+          if negb on_me then Err E_TASK else
+          if negb (is_top th mdl tid bid) then Err E_TASK else
+          Ok (store_body st ti tk (Some bi) {| b_id := bid; b_state := BRunning; b_on := b_on b |})
+        else if kind =? 101 then (* e *)
+          if negb (bstate_eqb (b_state b) BRunning) then Err E_TASK else
+          if negb on_me then Err E_TASK else
+          if negb (is_top th mdl tid bid) then Err E_TASK else
+          Ok (set_thread (store_body st ti tk (Some bi) {| b_id := bid; b_state := BDead; b_on := None |})
+                         who (with_bstack th (remove_entry (t_bstack th) mdl tid bid)))
+        else Err E_TASK
+      end
+  end.
+
+(* channel fields written when a body starts/stops running *)
+Inductive tfield := FBody | FTask | FType | FApp | FRank.
+
+Record taskcfg := {
+  tc_need : Z;                     (* thread-state requirement, as for EvChan *)
+  tc_bodyrule : bool;              (* nOS-V: body id 0 <-> non-parallel (stored as 1), >0 <-> parallel; Nanos6: always 1 *)
+  tc_ss : nat; tc_ssval : Z;       (* subsystem channel and the "task body" value pushed on x / popped on e *)
+  tc_chans : list (tfield * nat);  (* which channel shows which field *)
+  tc_appid_checked : bool          (* chan_body_running refuses appid <= 0 (nOS-V) *)
+}.
+
+Fixpoint set_chans (sx : static) (st : state) (who : nat) (ws : list (nat * value)) (dirty : list (nat * nat))
+  : result (state * list (nat * nat)) :=
+  match ws with
+  | [] => Ok (st, dirty)
+  | (k, v) :: r =>
+    match chan_step sx st who k SET v with
+    | Err e => Err e
+    | Ok (st', d) => set_chans sx st' who r (dirty ++ d)
+    end
+  end.
+
+Definition field_value (ti : thread_info) (tk : task) (b : body) (f : tfield) : value :=
+  match f with
+  | FBody => Some (b_id b) | FTask => Some (tk_id tk) | FType => Some (tk_gid tk)
+  | FApp => Some (ti_appid ti) | FRank => Some (ti_rank ti + 1)
+  end.
+
+Definition task_event (sx : static) (st : state) (who : nat) (cfg : taskcfg) (mdl kind tid rawbid : Z)
+  : result (state * list (nat * nat)) :=
+  match nth_opt (threads st) who, nth_opt (s_threads sx) who with
+  | Some th, Some ti =>
+    let loom := ti_loom ti in let pid := ti_pid ti in
+    match find_task st loom pid mdl tid with
+    | None => Err E_TASK
+    | Some (_, tk0) =>
+      (* body id rule *)
+      let obid := if tc_bodyrule cfg then
+                    (if tk_par tk0 then (if rawbid =? 0 then None else Some rawbid)
+                     else (if rawbid =? 0 then Some 1 else None))
+                  else Some 1 in
+      match obid with
+      | None => Err E_TASK
+      | Some bid =>
+        let prev := running_top st loom pid th mdl in
+        match task_op st who th loom pid mdl kind tid bid with
+        | Err e => Err e
+        | Ok st1 =>
+          let th1 := nth who (threads st1) dummy_thread in
+          let next := running_top st1 loom pid th1 mdl in
+          (* subsystem channel: pushed on x, popped on e *)
+          let ssr := if kind =? 120 then chan_step sx st1 who (tc_ss cfg) PUSH (Some (tc_ssval cfg))
+                     else if kind =? 101 then chan_step sx st1 who (tc_ss cfg) POP (Some (tc_ssval cfg))
+                     else Ok (st1, []) in
+          match ssr with
+          | Err e => Err e
+          | Ok (st2, d1) =>
+            let was := match prev with Some _ => true | None => false end in
+            let now := match next with Some _ => true | None => false end in
+            (* x over a running body = X (nested); e that uncovers a running body = E *)
+            let nested := ((kind =? 120) && was) || ((kind =? 101) && now) in
+            let fields := filter (fun '(f, _) => match f with FRank => 0 <=? ti_rank ti | _ => true end) (tc_chans cfg) in
+            let writes : result (list (nat * value)) :=
+              if nested then
+                match prev, next with
+                | Some (tp, bp), Some (tn, bn) =>
+                  (* cannot switch to the same body (nOS-V) / task (Nanos6) *)
+                  if (tk_id tp =? tk_id tn) && (if tc_bodyrule cfg then b_id bp =? b_id bn else true) then Err E_TASK
+                  else if (tk_id tn =? 0) || (tk_gid tn =? 0) then Err E_TASK
+                  else Ok (map (fun '(f, k) => (k, field_value ti tn bn f)) fields)
+                | _, _ => Err E_TASK
+                end
+              else if (kind =? 120) || (kind =? 114) then
+                match next with
+                | Some (tn, bn) =>
+                  if (tk_id tn =? 0) || (tk_gid tn =? 0) || (tc_appid_checked cfg && (ti_appid ti <=? 0)) then Err E_TASK
+                  else Ok (map (fun '(f, k) => (k, field_value ti tn bn f)) fields)
+                | None => Err E_TASK
+                end
+              else Ok (map (fun '(f, k) => (k, None)) fields) in
+            match writes with
+            | Err e => Err e
+            | Ok ws =>
+              match set_chans sx st2 who ws d1 with
+              | Err e => Err e
+              | Ok (st3, d) =>
+                (* enforce_task_rules: after x the innermost subsystem is the task body *)
+                if kind =? 120 then
+                  match raw_read (spec_of sx (tc_ss cfg)) (raw_of st3 who (tc_ss cfg)) with
+                  | Some v => if v =? tc_ssval cfg then Ok (st3, d) else Err E_TASK
+                  | None => Ok (st3, d)
+                  end
+                else Ok (st3, d)
+              end
+            end
+          end
+        end
+      end
+    end
+  | _, _ => Err E_UNKNOWN
+  end.
+
+Definition task_create (sx : static) (st : state) (who : nat) (mdl tid typeid : Z) (par res pause relax : bool) : result state :=
+  match nth_opt (s_threads sx) who with
+  | None => Err E_UNKNOWN
+  | Some ti =>
+    match find_task st (ti_loom ti) (ti_pid ti) mdl tid with
+    | Some _ => Err E_TASK
+    | None =>
+      match find_type (types st) (ti_loom ti) (ti_pid ti) mdl typeid with
+      | None => Err E_TASK
+      | Some ty =>
+        Ok (set_tasks st (tasks st ++ [{| tk_loom := ti_loom ti; tk_pid := ti_pid ti; tk_model := mdl; tk_id := tid; tk_gid := ty_gid ty;
+                                          tk_par := par; tk_res := res; tk_pause := pause; tk_relax := relax; tk_bodies := [] |}]))
+      end
+    end
+  end.
+
+Definition type_create (sx : static) (st : state) (who : nat) (mdl typeid gid : Z) : result state :=
+  match nth_opt (s_threads sx) who with
+  | None => Err E_UNKNOWN
+  | Some ti =>
+    match find_type (types st) (ti_loom ti) (ti_pid ti) mdl typeid with
+    | Some _ => Err E_TASK
+    | None => if typeid =? 0 then Err E_TASK
+              else Ok (set_types st (types st ++ [{| ty_loom := ti_loom ti; ty_pid := ti_pid ti; ty_model := mdl; ty_id := typeid; ty_gid := gid |}]))
+    end
+  end.
+
+Definition need_ok (need : Z) (th : thread) : bool :=
+  negb (((need =? 1) && negb (is_running (t_state th))) ||
+        ((need =? 2) && negb (is_active (t_state th))) ||
+        ((need =? 3) && t_ooc th) ||
+        ((need =? 4) && (negb (is_active (t_state th)) || t_ooc th))).
+
+Inductive event :=
+| EvOvni (e : ohev)
+| EvChan (k : nat) (a : action) (v : value) (need : Z)   (* table-driven model event on channel k; need: 0 none, 1 running, 2 active; *)
+| EvOoc (k : nat) (out : bool) (v : Z)               (* kernel context switch: KCO / KCI on channel k *)
+| EvTask (cfg : taskcfg) (mdl kind tid bid : Z)      (* VTx VTe VTp VTr / 6Tx ... *)
+| EvTaskCreate (need mdl tid typeid : Z) (par res pause relax : bool)
+| EvTypeCreate (need mdl typeid gid : Z)
+| EvNop                                              (* accepted and ignored (OU[, OU], OB., OCn) *)
+| EvBad (why : nat).                                 (* decoder could not place it: rejected *)
+
 (* the handler of one event: new semantic state and the raw channel it wrote, if any *)
-Definition core_step (sx : static) (st : state) (who : nat) (ev : event) : result (state * option (nat * nat)) :=
+Definition core_step (sx : static) (st : state) (who : nat) (ev : event) : result (state * list (nat * nat)) :=
   match ev with
   | EvBad why => Err why
   | EvNop =>
     match nth_opt (threads st) who with
-    | Some th => if t_ooc th then Err E_OOC else Ok (st, None)
+    | Some th => if t_ooc th then Err E_OOC else Ok (st, [])
     | None => Err E_UNKNOWN
     end
-  | EvOvni e => match oh_step sx st who e with Ok s => Ok (s, None) | Err e => Err e end
+  | EvOvni e => match oh_step sx st who e with Ok s => Ok (s, []) | Err e => Err e end
   | EvChan k a v need =>
     match nth_opt (threads st) who with
     | None => Err E_UNKNOWN
@@ -547,6 +845,25 @@ Definition core_step (sx : static) (st : state) (who : nat) (ev : event) : resul
     | None => Err E_UNKNOWN
     | Some th => chan_step sx (set_thread st who (with_ooc th out)) who k (if out then PUSH else POP) (Some v)
     end
+  | EvTask cfg mdl kind tid bid =>
+    match nth_opt (threads st) who with
+    | None => Err E_UNKNOWN
+    | Some th => if need_ok (tc_need cfg) th then task_event sx st who cfg mdl kind tid bid else Err E_THSTATE
+    end
+  | EvTaskCreate need mdl tid typeid par res pause relax =>
+    match nth_opt (threads st) who with
+    | None => Err E_UNKNOWN
+    | Some th => if need_ok need th then
+                   match task_create sx st who mdl tid typeid par res pause relax with Ok s => Ok (s, []) | Err e => Err e end
+                 else Err E_THSTATE
+    end
+  | EvTypeCreate need mdl typeid gid =>
+    match nth_opt (threads st) who with
+    | None => Err E_UNKNOWN
+    | Some th => if need_ok need th then
+                   match type_create sx st who mdl typeid gid with Ok s => Ok (s, []) | Err e => Err e end
+                 else Err E_THSTATE
+    end
   end.
 
 (* handler, then propagation: every written channel is offered to the PRV *)
@@ -557,8 +874,7 @@ Definition step (sx : static) (st : state) (who : nat) (ev : event) : result (st
     match emit_all (prv_last st1) (all_reqs sx st st1 dirty) with
     | Err e => Err e
     | Ok (last', ls) =>
-      Ok ({| threads := threads st1; cpu_threads := cpu_threads st1; cpu_touched := cpu_touched st1;
-             prv_last := last' |}, ls)
+      Ok (set_last st1 last', ls)
     end
   end.
 
@@ -567,12 +883,13 @@ Definition step (sx : static) (st : state) (who : nat) (ev : event) : result (st
 
 Definition init_thread (sx : static) : thread :=
   {| t_state := Unknown; t_cpu := None; t_ooc := false;
-     t_raw := map (fun sp => {| r_stk := []; r_val := cs_init sp |}) (s_chans sx) |}.
+     t_raw := map (fun sp => {| r_stk := []; r_val := cs_init sp |}) (s_chans sx); t_bstack := [] |}.
 
 Definition init (sx : static) : state :=
   {| threads := map (fun _ => init_thread sx) (s_threads sx);
      cpu_threads := map (fun _ => []) (s_cpus sx);
      cpu_touched := map (fun _ => false) (s_cpus sx);
+     tasks := []; types := [];
      prv_last := [] |}.
 
 (* timed events: (time, thread gindex, event); output lines carry the time *)
